@@ -80,10 +80,11 @@ class Ctx:
             self._exprs[body.cache_id] = e
         return e
 
-    def inl(self, body, skip=None):
-        """The body with crate-local plain function calls virtually inlined (DESIGN §3.2)."""
+    def inl(self, body, skip=None, tag=None, sugar=False):
+        """The body with crate-local plain function calls virtually inlined (DESIGN §3.2); with
+        sugar=True combinators and iterator pipelines are expanded too (engine.desugar)."""
         from .inline import inlined
-        return inlined(self.facts, body, skip=skip)
+        return inlined(self.facts, body, skip=skip, tag=tag, sugar=sugar)
 
     def reachable_bodies(self, hand_written=True):
         out = []
@@ -208,7 +209,30 @@ class Ctx:
         vb = self.facts.bodies[info["validate"]]
         return self.region(vb)
 
-    def validate_body(self, name, inline=False):
+    @staticmethod
+    def domain_api(cb):
+        """Functions that rules use as anchors and that therefore stay calls under virtual inlining:
+        the methods of the block model and the diagnostic constructors."""
+        if (cb.impl_self_adt or "").startswith("blockwatch::blocks::") or (cb.impl_self_adt or "") in ("blockwatch::validators::ValidationContext", "blockwatch::Position"):
+            return True
+        r = cb.local_ty(0)
+        return "blockwatch::validators::Violation" in r
+
+    def views(self, bodies):
+        """The given bodies plus, for each plain function among them, its inlined + desugared view
+        (helpers looked through, combinators and pipelines expanded): a rule that looks for a guard or
+        a branch tries both, so that it does not depend on how the step is written."""
+        out = []
+        for b in bodies:
+            out.append(b)
+            if b.promoted is None and b.kind in ("Fn", "AssocFn") and not b.coroutine and not getattr(b, "is_inlined", False):
+                try:
+                    out.append(self.inl(b, skip=Ctx.domain_api, tag="domain", sugar=True))
+                except Exception:
+                    pass
+        return out
+
+    def validate_body(self, name, inline=False, skip=None, tag=None, sugar=False):
         """The validator's `validate` body; with inline=True its crate-local helpers are virtually
         inlined, so that rules see the same code whether or not a step was extracted into a function."""
         info = self.validator(name)
@@ -216,7 +240,9 @@ class Ctx:
             return None
         b = self.facts.bodies[info["validate"]]
         if inline and not b.coroutine:
-            return self.inl(b)
+            if skip is None:
+                return self.inl(b, skip=Ctx.domain_api, tag="domain", sugar=sugar)
+            return self.inl(b, skip=lambda cb: Ctx.domain_api(cb) or skip(cb), tag=tag or "custom", sugar=sugar)
         return b
 
 
